@@ -102,6 +102,7 @@ func randomCase(rng *rand.Rand, prop string) *Case {
 		c.Notify = "NEVER"
 	}
 	c.NoNoop = rng.Intn(8) == 0
+	c.Prog = []string{"das", "das", "das", "dasn", "send", "reset", "two"}[rng.Intn(7)]
 	c.TLS = 'N'
 	if rng.Intn(6) == 0 {
 		// a STARTTLS session: other capabilities inside TLS than before
@@ -432,6 +433,22 @@ func generate(r *hx.Run, prop string) []*Case {
 			add(base(2, 1, 'q', allCaps, sc))
 		})
 	}
+	// the other entry points (same oracles): DialAndSend, Dial+Send+Close, Send/Reset/Send, two smtp.Clients of one Client
+	for _, prog := range []string{"dasn", "send", "reset", "two"} {
+		for _, noNoop := range []bool{false, true} {
+			enumScripts(22, 1, negDev, func(sc []smtpx.Decision) {
+				c := base(3, 1, 'q', allCaps, sc)
+				c.Prog, c.NoNoop = prog, noNoop
+				add(c)
+			})
+			for _, k := range []int{0, 1, 2} { // producer failure in the first / second half
+				c := base(3, 2, 'n', allCaps, nil)
+				c.Prog, c.NoNoop = prog, noNoop
+				c.Msgs[k].Kind, c.Msgs[k].K = 'w', 4
+				add(c)
+			}
+		}
+	}
 	// random long scripts / shapes / configurations
 	nrand := 1500
 	if thorough {
@@ -467,7 +484,7 @@ func RunProp(r *hx.Run, replay []hx.Case, prop string) {
 			ids = append(ids, r.NewID())
 		}
 	}
-	results := make([]*Result, len(cases))
+	results := make([][]SubRun, len(cases))
 	workers := runtime.NumCPU()
 	if workers > 8 {
 		workers = 8
@@ -479,7 +496,7 @@ func RunProp(r *hx.Run, replay []hx.Case, prop string) {
 		go func() {
 			defer wg.Done()
 			for i := range next {
-				results[i] = RunCase(cases[i])
+				results[i] = RunProgram(cases[i])
 			}
 		}()
 	}
@@ -492,11 +509,21 @@ func RunProp(r *hx.Run, replay []hx.Case, prop string) {
 	close(next)
 	wg.Wait()
 	for i, c := range cases {
-		res := results[i]
-		if res == nil {
+		subs := results[i]
+		if subs == nil {
 			continue
 		}
-		args := append(c.Args(), res.Derived())
+		var derived []string
+		for _, sr := range subs {
+			if dv := sr.Res.Derived(); dv != "-" {
+				derived = append(derived, dv)
+			}
+		}
+		dv := "-"
+		if len(derived) > 0 {
+			dv = strings.Join(derived, ";")
+		}
+		args := append(c.Args(), dv)
 		hc := hx.Case{ID: ids[i], Kind: kind, Args: args}
 		nontrivial := false
 		for _, d := range c.Script {
@@ -505,25 +532,34 @@ func RunProp(r *hx.Run, replay []hx.Case, prop string) {
 				r.Dist["deviation:"+d.Kind]++
 			}
 		}
-		for j := range c.Msgs {
-			if res.Failed[j] {
-				nontrivial = true
-				r.Dist[fmt.Sprintf("producer-failure:%c", c.Msgs[j].Kind)]++
-			}
+		prog := c.Prog
+		if prog == "" {
+			prog = "das"
 		}
+		r.Dist["program:"+prog]++
 		r.Dist[fmt.Sprintf("batch:%dmsg", len(c.Msgs))]++
 		r.Dist[fmt.Sprintf("caps:%d", len(c.Caps))]++
-		r.Dist["return:"+strings.SplitN(res.RetKind, ":", 2)[0]]++
-		var obs string
+		var obsl []string
 		var fs []Finding
-		switch prop {
-		case "C03":
-			obs, fs = res.ObsC03(), OracleC03(c, res)
-		case "C04":
-			obs, fs = res.ObsC04(), OracleC04(c, res)
-		default:
-			obs, fs = res.ObsC20(), OracleC20(c, res)
+		for _, sr := range subs {
+			res := sr.Res
+			for j := range sr.Case.Msgs {
+				if res.Failed[j] {
+					nontrivial = true
+					r.Dist[fmt.Sprintf("producer-failure:%c", sr.Case.Msgs[j].Kind)]++
+				}
+			}
+			r.Dist["return:"+strings.SplitN(res.RetKind, ":", 2)[0]]++
+			switch prop {
+			case "C03":
+				obsl, fs = append(obsl, res.ObsC03()), append(fs, OracleC03(sr.Case, res)...)
+			case "C04":
+				obsl, fs = append(obsl, res.ObsC04()), append(fs, OracleC04(sr.Case, res)...)
+			default:
+				obsl, fs = append(obsl, res.ObsC20()), append(fs, OracleC20(sr.Case, res)...)
+			}
 		}
+		obs := strings.Join(obsl, " || ")
 		r.Add(hc, obs, nontrivial)
 		for _, f := range fs {
 			r.Fail(ids[i], f.Class, f.Detail)
